@@ -25,7 +25,10 @@ RULE = ("seeded cell lists: stream (i) dyadic coordinates (atoms on cell borders
         "mask output, scalar and per-query radii, compared as sets with the Lean ℚ model; stream (ii) general "
         "float32 inputs incl. triclinic boxes judged by the float64 brute-force oracle with a 1e-4 band; exact periodic boxes "
         "also as signed permutation matrices, float-geom stream (rotated orthorhombic, one-angle triclinic) compared with "
-        "biotite's own geometry distances; every array argument must be bit-identical after each call. "
+        "biotite's own geometry distances; every array argument must be bit-identical after each call (also a refused one); "
+        "60 % of the cases pass every argument in another spelling (NumPy scalar widths, float64/F-order/strided/byte-swapped/"
+        "read-only arrays, lists) and call style (positional/keyword/defaults omitted); first query re-issued after the others and "
+        "on a second cell list with reversed atoms; box.py helpers checked directly. "
         "non-trivial = at least one query returns a non-empty proper subset of the atoms or an error branch is hit; "
         "distinct = different op lines / spec")
 TRUSTED = ["numpy float32 arithmetic is exact on the dyadic inputs of the exact stream (power-of-two scaling, <2^24 magnitudes)",
@@ -1098,6 +1101,32 @@ def _box_function_checks(np, coords32, box, exact):
             v.append((f"C14/box/repeat_box_coord/amount-{amount}/wrong-images",
                       f"repeat_box_coord(n={n}, amount={amount}) does not return the original coordinates followed by every "
                       f"translation once with indices tile(arange(n))"))
+    try:
+        from biotite.structure.box import coord_to_fraction, fraction_to_coord, is_orthogonal
+        fr = np.asarray(coord_to_fraction(coords32, box), dtype=np.float64)
+        back = np.asarray(fraction_to_coord(coord_to_fraction(coords32, box), box), dtype=np.float64)
+        if np.abs(fr - coords32.astype(np.float64) @ inv).max() > 1e-4 * (1 + np.abs(fr).max()) or \
+                np.abs(back - coords32).max() > (1e-9 if exact else 1e-4 * scale):
+            v.append(("C14/box/coord_to_fraction/round-trip", f"fraction_to_coord(coord_to_fraction(x)) != x for box {box.tolist()}"))
+        dots = [abs(float(B[i] @ B[j])) for i, j in ((0, 1), (0, 2), (1, 2))]
+        err = 5e-7 * float((B * B).sum(axis=1).max())      # float32 rounding of the dot products inside is_orthogonal
+        if max(dots) + err < 1e-6 or max(dots) - err > 1e-6:
+            mine = max(dots) < 1e-6
+            if bool(np.all(is_orthogonal(box))) != mine:
+                v.append(("C14/box/is_orthogonal/wrong", f"is_orthogonal({box.tolist()}) = {bool(np.all(is_orthogonal(box)))}, "
+                          f"pairwise dot products {dots}"))
+        if n >= 2:
+            dv = np.asarray(struc.displacement(coords32[0], coords32, box=box), dtype=np.float64)
+            dd = np.asarray(struc.distance(coords32[0], coords32, box=box), dtype=np.float64)
+            pairs = np.stack([np.zeros(n, dtype=int), np.arange(n)], axis=-1)
+            di = np.asarray(struc.index_distance(coords32, pairs, periodic=True, box=box), dtype=np.float64)
+            dj = np.asarray(struc.index_displacement(coords32, pairs, periodic=True, box=box), dtype=np.float64)
+            if np.abs(np.sqrt((dv * dv).sum(axis=-1)) - dd).max() > 1e-4 * scale or np.abs(di - dd).max() > 1e-4 * scale \
+                    or np.abs(dj - dv).max() > 1e-4 * scale:
+                v.append(("C14/geometry/distance-displacement-index-variants-disagree",
+                          f"|displacement|, distance, index_distance, index_displacement differ for box {box.tolist()}"))
+    except Exception as e:  # noqa: BLE001
+        v.append((f"C14/box/helpers/unexpected-{type(e).__name__}", str(e)[:200]))
     try:
         at = struc.AtomArray(n)
         at.coord = coords32
